@@ -726,6 +726,7 @@ htp_status_t htp_connp_REQ_HEADERS(htp_connp_t *connp) {
                     if (connp->in_header == NULL) return HTP_ERROR;
                 } else {
                     // Add to the existing header.
+                    connp->in_header_folded = 1;
                     if (bstr_len(connp->in_header) < HTP_MAX_HEADER_FOLDED) {
                         bstr *new_in_header = bstr_add_mem(connp->in_header, data, len);
                         if (new_in_header == NULL) return HTP_ERROR;
